@@ -280,7 +280,9 @@ Definition apply_op (c : cfg) (s : sess) (o : scr) : sess :=
   match o with
   | Oset k v => mksess (d_set k v (s_data s)) (s_copy s) (s_tval s) (s_how s) (s_tin s) (s_onsrv s) (s_reset s)
   | Oerase k => mksess (dremove k (s_data s)) (s_copy s) (s_tval s) (s_how s) (s_tin s) (s_onsrv s) (s_reset s)
-  | Oclear => mksess [] (s_copy s) (s_tval s) (s_how s) (s_tin s) (s_onsrv s) (s_reset s)
+  (* clear(): data_ emptied and timeout_val_/how_/on_server_ back to the configured defaults (the entries _t/_h/_s that
+     recorded them are gone) *)
+  | Oclear => mksess [] (s_copy s) (c_timeout c) (c_how c) (s_tin s) false (s_reset s)
   | Oexpose k => mksess (d_expose k true (s_data s)) (s_copy s) (s_tval s) (s_how s) (s_tin s) (s_onsrv s) (s_reset s)
   | Ohide k => mksess (d_expose k false (s_data s)) (s_copy s) (s_tval s) (s_how s) (s_tin s) (s_onsrv s) (s_reset s)
   | Oage t => mksess (d_set k_t (show_Z t) (s_data s)) (s_copy s) t (s_how s) (s_tin s) (s_onsrv s) (s_reset s)
@@ -412,7 +414,7 @@ Definition session_age (now : Z) (s : sess) (newsess : bool) : Z :=
   if (s_how s =? 2)%Z || (s_how s =? 1)%Z || ((s_how s =? 0)%Z && newsess) then (s_tval s + now)%Z
   else s_tin s.
 
-(* --- update_exposed(force): effect on the exposed-value cookies of the jar --- *)
+(* --- update_exposed(force, resend): effect on the exposed-value cookies of the jar --- *)
 Definition is_exposed (k : bytes) (m : dmap) : bool :=
   match dfind k m with Some (_, e) => e | None => false end.
 
@@ -422,6 +424,8 @@ Definition xset (now age : Z) (k v : bytes) (x : xjar) : xjar :=
   | _ => match age_exp now age with Some e => xput k (v, e) x | None => xremove k x end
   end.
 
+(* an exposed entry is sent when the update is forced, when all of them are sent again (resend: the session cookie has just
+   been given a new lifetime) or when it is new / changed / newly exposed *)
 Fixpoint exposed_sets (now age : Z) (force : bool) (copy : dmap) (d : dmap) (x : xjar) : xjar :=
   match d with
   | [] => x
@@ -433,8 +437,40 @@ Fixpoint exposed_sets (now age : Z) (force : bool) (copy : dmap) (d : dmap) (x :
       exposed_sets now age force copy r (if need then xset now age k v x else x)
   end.
 
-Definition update_exposed (now age : Z) (force : bool) (s : sess) (x : xjar) : xjar :=
-  filter (fun kv => is_exposed (fst kv) (s_data s)) (exposed_sets now age force (s_copy s) (s_data s) x).
+(* in the effect on the jar force and resend are the same thing (they differ in the deletion cookies, see exposed_dels) *)
+Definition update_exposed (now age : Z) (force resend : bool) (s : sess) (x : xjar) : xjar :=
+  filter (fun kv => is_exposed (fst kv) (s_data s)) (exposed_sets now age (force || resend) (s_copy s) (s_data s) x).
+
+(* the keys for which update_exposed emits a deletion cookie (Max-Age=0), as a sorted set:
+   exposed entries that are sent with an empty value (or a negative age); entries that are not exposed and were exposed before -
+   or any non-exposed entry when the update is FORCED (not on a mere resend); exposed entries of data_copy_ that are gone;
+   every prefix_key cookie the request carried whose key is not exposed (remove_unknown_cookies) *)
+Fixpoint kins (k : bytes) (l : list bytes) : list bytes :=
+  match l with
+  | [] => [k]
+  | k' :: r => if beqb k k' then l else if bltb k k' then k :: l else k' :: kins k r
+  end.
+
+Fixpoint dels_data (now age : Z) (force resend : bool) (copy : dmap) (d : dmap) : list bytes :=
+  match d with
+  | [] => []
+  | (k, (v, e)) :: r =>
+      let was := match dfind k copy with Some (_, e2) => e2 | None => false end in
+      let changed := match dfind k copy with None => true | Some (v2, e2) => negb e2 || negb (beqb v v2) end in
+      let here :=
+        if e then
+          if (force || resend || changed) &&
+             (match v with [] => true | _ => match age_exp now age with None => true | Some _ => false end end)
+          then [k] else []
+        else if was || force then [k] else [] in
+      here ++ dels_data now age force resend copy r
+  end.
+
+Definition exposed_dels (now age : Z) (force resend : bool) (s : sess) (x : xjar) : list bytes :=
+  fold_right kins []
+    (dels_data now age force resend (s_copy s) (s_data s)
+     ++ map fst (filter (fun kv => snd (snd kv) && match dfind (fst kv) (s_data s) with None => true | Some _ => false end) (s_copy s))
+     ++ map fst (filter (fun kv => negb (is_exposed (fst kv) (s_data s))) x)).
 
 Definition jar_set_sess (now age : Z) (ck : cookie) (j : jar) : jar :=
   match age_exp now age with
@@ -449,7 +485,7 @@ Definition si_save (c : cfg) (w : world) (b : nat) (s : sess) : world * list sop
   if dempty (s_data s) then
     let (w1, l1) := if cookie_nonempty (j_sess (get_jar w b)) then backend_clear c w b else (w, []) in
     let j := get_jar w1 b in
-    (set_jar w1 b (mkjar (j_sess j) (update_exposed now 0 true s (j_exp j))), l1, None)
+    (set_jar w1 b (mkjar (j_sess j) (update_exposed now 0 true false s (j_exp j))), l1, None)
   else
     let same := dmap_eqb (s_data s) (s_copy s) && negb newsess in
     if same && (s_how s =? 0)%Z then (w, [], None)
@@ -467,7 +503,9 @@ Definition si_save (c : cfg) (w : world) (b : nat) (s : sess) : world * list sop
               let hist := match age_exp now age with
                           | Some _ => if existsb (cookie_eqb ck) (w_hist w1) then w_hist w1 else w_hist w1 ++ [ck]
                           | None => w_hist w1 end in
-              let j' := mkjar (j_sess j) (update_exposed now age same s (j_exp j)) in
+              (* update_exposed(force_update, new_session_ || how_!=fixed): whenever the session cookie gets a new lifetime the
+                 exposed-value cookies are sent again with it *)
+              let j' := mkjar (j_sess j) (update_exposed now age same (newsess || negb (s_how s =? 0)%Z) s (j_exp j)) in
               (mkworld (w_now w1) (set_nth b j' (w_jars w1)) (w_store w1) (w_next w1) hist, l1, None)
           end
       end.
@@ -487,6 +525,35 @@ Definition request (c : cfg) (w : world) (b : nat) (script : list scr) : world *
       match si_save c w1 b s' with
       | (w2, l2, e) => (w2, mkobs (Some (ld, s_data s, s_tval s, s_how s, s_onsrv s)) e (l1 ++ l2))
       end
+  end.
+
+(* the deletion cookies for exposed-value cookies that the request emits (observed by the correspondence harness next to the
+   resulting jar; kept outside `request` so that the observation record stays as it is) *)
+Definition si_save_dels (c : cfg) (w : world) (b : nat) (s : sess) : list bytes :=
+  let newsess := (dempty (s_copy s) && negb (dempty (s_data s))) || s_reset s in
+  let now := w_now w in
+  if dempty (s_data s) then exposed_dels now 0 true false s (j_exp (get_jar w b))
+  else
+    let same := dmap_eqb (s_data s) (s_copy s) && negb newsess in
+    if same && (s_how s =? 0)%Z then []
+    else if same && ((s_how s =? 1)%Z || (s_how s =? 2)%Z)
+                 && tenth_gt (now + s_tval s - s_tin s) (s_tval s) then []
+    else
+      match save_data (s_data s) with
+      | None => []
+      | Some blob =>
+          match backend_save c w b blob (session_age now s newsess) newsess (s_onsrv s) with
+          | (_, _, None) => []
+          | (_, _, Some _) =>
+              exposed_dels now (cookie_age now s newsess) same (newsess || negb (s_how s =? 0)%Z) s (j_exp (get_jar w b))
+          end
+      end.
+
+Definition request_dels (c : cfg) (w : world) (b : nat) (script : list scr) : list bytes :=
+  let w0 := set_jar w b (jar_expire (w_now w) (get_jar w b)) in
+  match si_load c w0 b with
+  | (_, _, inr _) => []
+  | (w1, _, inl (_, s)) => si_save_dels c w1 b (apply_ops c s script)
   end.
 
 (* --- histories --- *)
